@@ -20,13 +20,13 @@ import (
 )
 
 type FaultCall struct {
-	Kind  string `json:"call"`
-	K     []byte `json:"k,omitempty"`
-	V     []byte `json:"v,omitempty"`
-	N     int64  `json:"n,omitempty"`
-	Asc   bool   `json:"asc,omitempty"`
-	Cache int    `json:"cache"`
-	Skip  bool   `json:"skip_fast"`
+	Kind  string  `json:"call"`
+	K     []byte  `json:"k,omitempty"`
+	V     []byte  `json:"v,omitempty"`
+	N     int64   `json:"n,omitempty"`
+	Asc   bool    `json:"asc,omitempty"`
+	Cache int     `json:"cache"`
+	Skip  bool    `json:"skip_fast"`
 	Flush int     `json:"flush,omitempty"` // flush threshold of the faulted handle (0 = 100000: one physical write per operation)
 	Multi [][]int `json:"multi,omitempty"` // additional multi-fault position sets (1-based, relative)
 	// NoLoad: the call is the FIRST call on a brand-new handle (no Load before it): whatever the handle has to discover
@@ -309,7 +309,7 @@ func execCall(tr *iavl.MutableTree, c FaultCall, importNodes []*iavl.ExportNode)
 type faultStats struct {
 	positions, errored, same, multi int
 	continued                       int // failed prunes after which the same handle committed again and later versions were re-read
-	kinds                       map[string]int
+	kinds                           map[string]int
 }
 
 // known F10 sub-cases still open (swallowed errors that are recorded, not repaired)
